@@ -64,7 +64,10 @@ fn judge(srv: &Srv, write: bool, flen: usize, opts: &[(String, String)], seq: us
     let (first, oack, error, completed, anomalies, block_lens, data_ok, window_exceeded, stored): (String, Option<Vec<(String, String)>>, Option<(u16, String)>, bool, Vec<String>, Vec<usize>, bool, bool, Option<Vec<u8>>);
     let want = file_content(flen);
     if !write {
-        let r = download_ex(srv, format!("f{flen}").as_bytes(), opts, Some(Duration::from_micros(300)));
+        // with a window of two or more, the first window is acknowledged only partially (its first block): the server must go
+        // back and send exactly the acknowledged number of blocks again, not more
+        let wants_window = opts.iter().any(|(n, v)| lower(n) == "windowsize" && v.parse::<u64>().map(|x| (2..=64).contains(&x)).unwrap_or(false));
+        let r = download_mode(srv, format!("f{flen}").as_bytes(), opts, Some(Duration::from_micros(300)), if wants_window && seq % 2 == 0 { 4 } else { 0 });
         data_ok = r.data == want;
         first = r.first;
         oack = r.oack;
